@@ -14,10 +14,18 @@ PATHS = ["", "/", "/chat", "/a/b%20c", "/p;x=1", "/deep/er/path/", "/%E2%82%AC"]
 QUERIES = ["", "x=1", "a=b&c=d", "q=%E2%82%AC", "flag", "a=1&a=2"]
 ACCEPT_KINDS = ["correct", "other_key", "no_guid", "swapcase", "lower", "upper", "one_case_flip", "one_char",
                 "trunc:27", "trunc:20", "trunc:1", "nopad", "extra", "inner_space", "hex", "key_echo", "empty",
-                "braced", "format_field"]
+                "braced", "format_field",
+                # the digest with non-ASCII bytes around it that a text decoder may turn into "white space": UTF-8 of
+                # U+00A0 / U+2003 / U+3000, and the single bytes A0 (NBSP) and 85 (NEL) of ISO 8859-1
+                "suffix:c2a0", "prefix:e28083", "suffix:e38080", "suffix:a0", "prefix:85"]
 # wrong Upgrade values include characters that are special to str.format / % formatting / logging
 UPGRADES = ["websocket", "WebSocket", "WEBSOCKET", "wEbSoCkEt", "h2c", "websocket2", "web socket", "websockets", "",
-            "{websocket}", "websocket{}", "{0}", "%s%d", "h2c; profile={x}", "web\\socket"]
+            "{websocket}", "websocket{}", "{0}", "%s%d", "h2c; profile={x}", "web\\socket",
+            # non-ASCII look-alikes: KELVIN SIGN for "k" (lower-cases to "k"), U+017F for "s", and white space beyond SP/HTAB
+            "websoc\xe2\x84\xaaet", "WEB\xc5\xbfOCKET", "websocket\xc2\xa0", "\xe3\x80\x80websocket", "websocket\xa0", "\x85websocket"]
+# names of the two critical headers that are NOT those names although a lenient reading trims them to it
+ODD_NAMES = ["Upgrade\xc2\xa0", "\xe2\x80\x83Upgrade", "Upgrade\xa0", "Sec-WebSoc\xe2\x84\xaaet-Accept", "Sec-WebSocket-Accept\xc2\xa0",
+             "Sec-WebSocket-Accept\x85"]
 DUP_NAMES = ["Upgrade", "upgrade", "UPGRADE", "uPgRaDe", "Sec-WebSocket-Accept", "sec-websocket-accept",
              "SEC-WEBSOCKET-ACCEPT", "Sec-Websocket-accept"]
 REASONS = ["Switching Protocols", "", "OK", "Web Socket Protocol Handshake", "Forbidden", "x y z", "{}", "{0} %s {x!r}"]
@@ -46,11 +54,12 @@ def build_url(u):
 def reply_spec(r):
     """Turn the drawn reply description into an httpref spec."""
     headers = []
+    odd = r.get("odd_name")       # one critical header goes under a name that only looks like it
     if r["upgrade"] is not None:
-        headers.append(["Upgrade", r["upgrade"]])
+        headers.append([odd if odd and "pgrade" in odd else "Upgrade", r["upgrade"]])
     headers.append(["Connection", "Upgrade"])
     if r["accept"] != "missing":
-        headers.append(["Sec-WebSocket-Accept", "{accept:%s}" % r["accept"]])
+        headers.append([odd if odd and "ccept" in odd else "Sec-WebSocket-Accept", "{accept:%s}" % r["accept"]])
     if r.get("protocol"):
         headers.append(["Sec-WebSocket-Protocol", r["protocol"]])
     for e in r.get("extensions", []):
@@ -186,6 +195,16 @@ class C10(Prop):
                                    "key": "000102030405060708090a0b0c0d0e0f", "key2": None, "seg": "whole",
                                    "reply": {"status": status, "upgrade": up, "accept": a, "terminate": True,
                                              "reason": reason}}
+        def odd_names():
+            for name in ODD_NAMES:
+                for casing in range(4):
+                    for ows in ([" ", ""], ["", " "], ["\t", "\t"]):
+                        yield {"url": {"scheme": "ws", "host": "example.test", "port": None, "path": "/", "query": ""},
+                               "protocols": [], "headers": [], "agent": None, "compress": False,
+                               "key": "000102030405060708090a0b0c0d0e0f", "key2": None, "seg": "whole",
+                               "reply": {"status": 101, "upgrade": "websocket", "accept": "correct", "terminate": True,
+                                         "odd_name": name, "casing": [casing], "ows": [ows]}}
+
         def spellings():
             # every spelling dimension applied to each header of an otherwise canonical reply, once with the
             # correct digest (must be Ready) and once with the digest of another key (must be Rejected)
@@ -265,6 +284,7 @@ class C10(Prop):
                 Enumeration("header_block_at_the_limit_x_cut_in_terminator", limit_and_terminator, exhaustive=True),
                 Enumeration("malformed_status_lines", odd_status_lines, exhaustive=True),
                 Enumeration("accept_x_upgrade_x_status", accepts, exhaustive=True),
+                Enumeration("critical_header_names_that_only_look_right", odd_names, exhaustive=True),
                 Enumeration("header_spellings", spellings, exhaustive=True), after_every_prelude(battery),
                 with_companion(battery)]
 
